@@ -237,7 +237,7 @@ func (s *Sut) Teardown() {
 		synctest.Wait()
 	}
 	if !s.E.StopFinished() {
-		panic(harnessError{"engine did not stop in teardown"})
+		s.Env.EngineStuck("engine did not stop within 100 simulated seconds of Stop() in teardown")
 	}
 	for _, st := range s.E.SF.All {
 		st.inner.Close()
